@@ -27,7 +27,7 @@ ChainOK(g, h, n, fmt) == IF h = "d1" \/ n = 0 THEN TRUE ELSE g[h] \in {"ok"} \cu
 ValidPart(g, h, fmt) == ChainOK(g, h, 4, fmt)
 AnyDefect(g) == \E x \in DOMAIN g : g[x] # "ok"
 WellFormed(g) == g["file"] \notin {"truncate", "dropclose", "garbage", "empty"}
-CurrentOdml(g) == g["file"] \notin {"wrongroot", "wrongversion", "noversion"}
+CurrentOdml(g) == g["file"] \notin {"wrongroot", "caseroot", "wrongversion", "noversion"}
 \* (Total) a Document, or a ParserException (InvalidVersionException for another format version)
 Total(o) == o.outcome \in {"Document", "ParserException", "InvalidVersionException"}
 VersionClass(o) == (WellFormed(o.g) /\ o.g["file"] = "wrongversion") => o.outcome = "InvalidVersionException"
